@@ -381,6 +381,33 @@ def rule_delegation(ctx):
         dk = ct[1]
         dt = norm(facts.body(dk).resolve_local(0))
         ok = ok and dt[0] == "call" and dt[1] == "hex::FromHex::from_hex" and models.field_path(dt[2][0]) == "0"
+    if not ok:
+        # explicit match: None -> Ok(None); Some(v) -> v.decode() handed on / wrapped in Some
+        tb = facts.body(k)
+        gv = [bb for bb, tt in tb.calls() if callee_name(tt["callee"]) == rl.get("get_value")]
+        decs = [callee_name(tt["callee"]) for _, tt in tb.calls() if callee_name(tt["callee"]).endswith("ChecksumValue::<'a>::decode")]
+        if len(gv) == 1 and len(decs) == 1 and not tb.back_edges() and [norm(tb.resolve_operand(a)) for a in tb.term(gv[0])["args"]] == [("arg", 1), ("arg", 2)]:
+            src = norm(tb.call_term(gv[0]))
+            good, seen_none, seen_some = True, False, False
+            for bb, n in models.returns(tb):
+                cls = models.classify_return(n)
+                atoms = [models.canon_atom(a) for _, a in atoms_at(tb, bb)]
+                st_ = [a[-1] for a in atoms if a[0] == "callres" and a[1] == rl.get("get_value")]
+                dec_of_some = lambda x: x[0] == "call" and x[1] == decs[0] and x[2] == (("some", src),)  # noqa: E731
+                if st_ == ["None"] and cls[0] == "ok" and cls[1][0] == "agg" and cls[1][1][2] == "None":
+                    seen_none = True
+                elif st_ and st_[0] == "Some" and cls[0] == "propagate" and dec_of_some(cls[1]):
+                    pass
+                elif st_ and st_[0] == "Some" and cls[0] == "ok" and cls[1][0] == "agg" and cls[1][1][2] == "Some" and cls[1][2][0][0] == "ok" and dec_of_some(cls[1][2][0][1]):
+                    seen_some = True
+                elif st_ and st_[0] == "Some" and cls[0] == "tail" and cls[1][1] == "std::result::Result::<T, E>::map" and dec_of_some(cls[1][2][0]) and cls[1][2][1][0] == "fn" and cls[1][2][1][1].split("::")[-1] == "Some":
+                    seen_some = True
+                else:
+                    good = False
+            ok = good and seen_none and seen_some
+            if ok:
+                dt = norm(facts.body(decs[0]).resolve_local(0))
+                ok = dt[0] == "call" and dt[1] == "hex::FromHex::from_hex" and models.field_path(dt[2][0]) == "0"
     ctx.ob("DELEGATE", "get(alg) = get_value(alg).map(|v| from_hex(v.raw)).transpose()", ok, fn=k, site=fn_site(facts, k), detail=nshow(t)[:160])
     k = rl.get("get_value")
     t = norm(facts.body(k).resolve_local(0))
@@ -428,6 +455,30 @@ def rule_build_canon(ctx):
     ks = [k for k, f in facts.fns.items() if f.get("name") == "try_get_typed"]
     t = norm(facts.body(ks[0]).resolve_local(0))
     ok = t[0] == "call" and t[1].endswith("::transpose") and t[2][0][1] == "std::option::Option::<T>::map" and t[2][0][2][0][0] == "call" and t[2][0][2][0][1].endswith("Qualifiers::get")
+    if not ok:
+        # the same as an explicit match: None -> Ok(None); Some(v) -> Q::try_from(v).map(Some) (or with `?` and Ok(Some(..)))
+        tb = facts.body(ks[0])
+        rets = [(bb, models.classify_return(n)) for (bb, n) in models.returns(tb)]
+        gets = [bb for bb, tt in tb.calls() if callee_name(tt["callee"]).endswith("Qualifiers::get")]
+        if len(gets) == 1 and not tb.back_edges() and len(rets) >= 2:
+            good = True
+            seen_none = seen_some = False
+            for bb, cls in rets:
+                atoms = [models.canon_atom(a) for _, a in atoms_at(tb, bb)]
+                on_none = any(a[0] == "callres" and a[1].endswith("Qualifiers::get") and a[-1] == "None" for a in atoms)
+                on_some = any(a[0] == "callres" and a[1].endswith("Qualifiers::get") and a[-1] == "Some" for a in atoms)
+                if on_none and cls[0] == "ok" and cls[1][0] == "agg" and cls[1][1][2] == "None":
+                    seen_none = True
+                elif on_some and cls[0] == "tail" and cls[1][1] == "std::result::Result::<T, E>::map" and cls[1][2][0][0] == "call" and cls[1][2][0][1] == "std::convert::TryFrom::try_from" \
+                        and cls[1][2][0][2][0] == ("some", tb and norm(tb.call_term(gets[0]))) and cls[1][2][1][0] == "fn" and cls[1][2][1][1].split("::")[-1] == "Some":
+                    seen_some = True
+                elif on_some and cls[0] == "propagate" and cls[1][0] == "call" and cls[1][1] == "std::convert::TryFrom::try_from":
+                    seen_some = seen_some
+                elif on_some and cls[0] == "ok" and cls[1][0] == "agg" and cls[1][1][2] == "Some" and cls[1][2][0][0] == "ok" and cls[1][2][0][1][0] == "call" and cls[1][2][0][1][1] == "std::convert::TryFrom::try_from":
+                    seen_some = True
+                else:
+                    good = False
+            ok = good and seen_none and seen_some
     ctx.ob("BUILD-CANON", "try_get_typed = get(Q::KEY).map(Q::try_from).transpose()", ok, fn=ks[0], site=fn_site(facts, ks[0]), detail=nshow(t)[:200])
     kc = facts.consts.get("<qualifiers::well_known::Checksum<'_> as qualifiers::well_known::KnownQualifierKey>::KEY")
     ctx.ob("BUILD-CANON", "Checksum::KEY = \"checksum\"", kc is not None and kc["v"] == "checksum", detail=str(kc and kc["v"]))
